@@ -657,17 +657,18 @@ pub fn check(o: &CheckOpts) -> i32 {
         None
     } else {
         let text = crate::miri::miri_calls(&pool, o.seed, t.miri.calls);
-        let m = crate::miri::run_miri(&o.verif, &text, t.miri.threads, &format!("-Zmiri-many-seeds=0..{}", t.miri.seeds), Duration::from_secs(t.miri.timeout_s));
+        let m = crate::miri::run_miri(&o.verif, &text, t.miri.threads, &format!("-Zmiri-many-seeds=0..{} -Zmiri-many-seeds-keep-going", t.miri.seeds), Duration::from_secs(t.miri.timeout_s));
         if m.ran {
-            println!("miri pass: {} seeds x {} threads x {} calls, data race reported: {}, other error: {} ({:.1}s)", m.seeds, m.threads, m.calls, m.data_race, m.other_error, m.wall_s);
+            println!("miri pass: {} seeds x {} threads x {} calls, data race reported: {}, result mismatch: {}, other error: {} ({:.1}s)", m.seeds, m.threads, m.calls, m.data_race, m.mismatch, m.other_error, m.wall_s);
         } else {
             println!("miri pass: not run ({})", m.reason);
         }
         if m.other_error {
             println!("NOTE: Miri reported an error that is not a data race in string_calculator; it is not a C16 verdict:\n{}", m.excerpt);
         }
-        if m.data_race {
+        if m.data_race || m.mismatch {
             raw_violations += 1;
+            let kind = if m.data_race { "data_race" } else { "miri_result_mismatch" };
             let seed0 = m.failing_seeds.first().copied().unwrap_or(0);
             let dir = format!("{}/replays", o.verif);
             let _ = std::fs::create_dir_all(&dir);
@@ -675,12 +676,12 @@ pub fn check(o: &CheckOpts) -> i32 {
             let v = json!({
                 "property": "C16", "seed": o.seed, "tier": t.name,
                 "miri": {"miri_seed": seed0, "failing_seeds": m.failing_seeds, "threads": m.threads, "calls_text": m.calls_text,
-                         "flags": "-Zmiri-disable-isolation -Zmiri-preemption-rate=0.1 -Zmiri-seed=<miri_seed>"},
-                "violation": {"kind": "data_race", "detail": m.excerpt},
+                         "flags": "-Zmiri-disable-isolation -Zmiri-deterministic-floats -Zmiri-preemption-rate=0.1 -Zmiri-seed=<miri_seed>"},
+                "violation": {"kind": kind, "detail": m.excerpt},
                 "format": "sc_sim replay v1 (miri): every thread evaluates the calls of calls_text (lines ev<TAB>placeholder<TAB>expr), thread t starting at offset t*n/threads; re-run under Miri with the given seed",
             });
             let _ = std::fs::write(&path, serde_json::to_string_pretty(&v).unwrap_or_default());
-            let class = ("any".to_string(), "data_race".to_string());
+            let class = ("any".to_string(), kind.to_string());
             let case = Case { threads: vec![], churn: vec![], start: 0, switches: vec![] };
             let kn = match_known(&known, &class, &case);
             findings.push(Finding { file: path, class, case, known: kn, confidence: format!("{} of {} Miri seeds fail", m.failing_seeds.len(), m.seeds) });
@@ -817,8 +818,8 @@ pub fn replay(path: &str, workers: usize) -> i32 {
         let verif = std::path::Path::new(path).parent().and_then(|p| p.parent()).map(|p| p.display().to_string()).unwrap_or_else(|| "/verif".into());
         let verif = if std::path::Path::new(&format!("{}/miri_scn/Cargo.toml", verif)).exists() { verif } else { "/verif".to_string() };
         let mo = crate::miri::run_miri(&verif, text, threads, &format!("-Zmiri-seed={}", seed), Duration::from_secs(600));
-        println!("miri replay with seed {}: ran={} data_race={} {}", seed, mo.ran, mo.data_race, mo.reason);
-        if mo.data_race {
+        println!("miri replay with seed {}: ran={} data_race={} result_mismatch={} {}", seed, mo.ran, mo.data_race, mo.mismatch, mo.reason);
+        if mo.data_race || mo.mismatch {
             println!("{}", mo.excerpt);
             println!("VIOLATION property=C16 replay={}", path);
             return 1;
